@@ -3,8 +3,11 @@
  P  Properties/C18.v over Model/Catalog.v (extends Model/Cache.v): user / caller tables keep name,
     origin and content through every safe history, register_table and drop refuse, cleanup is exact;
     refutations for debug mode (leak, clobber) and the realtime cached-SQL path.
- T  probes: which variant of the realtime cached path the tree implements (fx715), plus the C07 probes.
+ T  probes: which variant of the realtime cached path the tree implements (fx715), plus the C07 probes;
+    translators/c18_register.py reads DatabaseAPI.register_multiple_tables (ast) and fails closed unless both loops
+    iterate over zip(input_tables, input_aliases) with the by-name skip inside the loop, as Catalog.register_multiple does.
  X  histories of public operations + register_table / drop / realtime / cleanup calls on real Linkers
+    (also register_multiple_tables / Linker([...]) over mixed lists of table names and data frames)
     over PERSISTENT DuckDB files and SQLite files pre-populated with user tables and views (including
     names that look like Splink's); after every operation the catalog (tables AND views) is listed:
     oracle = schema and checksum of every user object unchanged, nothing Splink-derived left after
@@ -28,7 +31,7 @@ from harness.common import Ctx, REPO, coq_bool, coq_list, coq_nat, coq_string, g
 
 SCRATCH = "/var/tmp/cache/c18db"
 USER_TABLES = ["customers", "__splink__df_concat", "__splink__df_predict", "r", "blocked_with_cols",
-               "__splink__df_concat_with_tf_0a1b2c3d4", "people"]
+               "__splink__df_concat_with_tf_0a1b2c3d4", "people", "__splink__input_table_0"]
 USER_VIEWS = ["customer_view", "representatives", "Staff"]
 # user-owned tables with the schema of Splink tables: targets of the register_* entry points that take a table NAME
 SLOT_TABLES = {"cwtf": "user_nodes_with_tf", "predict": "user_predictions", "tf:first_name": "user_tf_first_name"}
@@ -36,12 +39,19 @@ LABELS_TABLE = "user_labels"
 # names that differ from an existing user object only in letter case (the engines resolve names case-insensitively)
 CASE_VARIANTS = ["People", "PEOPLE", "staff", "STAFF", "Customers", "CUSTOMER_VIEW", "R"]
 CALLER_RE = X.UID_NAMES
+# register_multiple_tables / Linker([...]) over mixed lists (table NAME, data frame): pools for the generator
+INPUT_TABLE = "inp"                        # X.World's input table: the by-name item of Linker([...]) calls
+BYNAME_API = [INPUT_TABLE, "customers", "people", "__splink__input_table_0", "user_labels"]
+FRESH_ALIASES = ["caller_t1", "caller_t2", "new_records", "scratch_a", "scratch_b"]      # never names of user objects
+LABEL_ALIASES = ["customers", "r", "people", "__splink__input_table_0", "census", "user_predictions"]   # labels of by-name items
+CLASH_ALIASES = ["customers", "r", "People", "customer_view", "STAFF", "__splink__df_concat", "__splink__input_table_0"]
 
 HEADER = X.HEADER + """
 From Splinkv Require Import Model.Catalog.
 Notation cop := (Catalog.cop K).
 Notation COp := (Catalog.COp K).
 Notation CRegisterTable := (Catalog.CRegisterTable K).
+Notation CRegisterMultiple := (Catalog.CRegisterMultiple K).
 Notation CRegisterByName := (Catalog.CRegisterByName K).
 Notation CHandleByName := (Catalog.CHandleByName K).
 Notation CDropTable := (Catalog.CDropTable K).
@@ -94,6 +104,7 @@ class CWorld(X.World):
         self.caller_names: set[str] = set()
         self.fx715 = False
         self.frames: dict = {}
+        self.pending: list[dict] = []       # oracle problems noticed inside an operation
         self.named_predict = False
         # user-owned copies of a concat_with_tf table, a predictions table, a term-frequency table and a labels table
         lk = self.linker
@@ -194,6 +205,8 @@ class CWorld(X.World):
                     if "already exists" not in str(e):
                         return term, f"ValueError: {e}"
                 return term, None
+            if kind == "regmulti":
+                return self._regmulti(op)
             if kind == "regname":
                 slot, table = op[1], SLOT_TABLES[op[1]]
                 tm = self.linker.table_management
@@ -240,6 +253,53 @@ class CWorld(X.World):
             return (f"(COp {term})" if term else None), raised
 
 
+def regmulti_aliases(op: tuple) -> list[str]:
+    _, items, aliases, _, _ = op
+    return list(aliases) if aliases is not None else [f"__splink__input_table_{i}" for i in range(len(items))]
+
+
+def regmulti_term(op: tuple) -> str:
+    _, items, _, ow, _ = op
+    its = coq_list([f"(RByName {coq_string(x)})" if k == "n" else f"(RFrame {coq_nat(x)})" for k, x in items], "reg_item")
+    return f"(CRegisterMultiple {its} {coq_list([coq_string(a) for a in regmulti_aliases(op)], 'string')} {coq_bool(ow)})"
+
+
+def _regmulti(self, op: tuple):
+    """register_multiple_tables over a mixed list of table names and data frames, through Linker(...) or the DatabaseAPI.
+    The expected refusal is decided from an independent catalog listing: a FRAME's alias that names an existing object."""
+    from splink import Linker
+    _, items, aliases, ow, via = op
+    eff = regmulti_aliases(op)
+    frame_aliases = [a for (k, _), a in zip(items, eff) if k == "f"]
+    existing = {n.lower() for n, _ in self.catalog()}
+    clash = sorted(a for a in frame_aliases if a.lower() in existing)
+    expect_refusal = bool(clash) and not ow
+    tables = [x if k == "n" else (pd.DataFrame(X.data_rows(x)) if via == "linker" else pd.DataFrame({"a": [x, x + 1], "b": ["p", "q"]}))
+              for k, x in items]
+    refused = None
+    try:
+        if via == "linker":
+            assert ow == (aliases is None)
+            Linker(tables, X.settings_creator("link_only"), self.api, **({} if aliases is None else {"input_table_aliases": list(aliases)}))
+            su.quiet()
+        else:
+            self.api.register_multiple_tables(tables, list(aliases), overwrite=ow)
+    except ValueError as e:
+        if "already exists" not in str(e):
+            return regmulti_term(op), f"ValueError: {e}"
+        refused = str(e)[:200]
+    if refused is None:
+        self.caller_names |= {a for a in frame_aliases if a not in self.user_names}
+    if expect_refusal and refused is None:
+        self.pending.append({"why": "registration under an existing name is not refused", "op": op, "existing": clash})
+    if refused is not None and not expect_refusal:
+        self.pending.append({"why": "registration refused although no frame alias names an existing object", "op": op, "error": refused})
+    return regmulti_term(op), None
+
+
+CWorld._regmulti = _regmulti
+
+
 def compute_df_concat_with_tf_name(lk) -> str:
     from splink.internals.pipeline import CTEPipeline
     from splink.internals.vertically_concatenate import compute_df_concat_with_tf
@@ -263,12 +323,74 @@ def fresh_path(backend: str, tag: str) -> str:
 
 
 # ------------------------------------------------------------------------------------------- histories
+ALPHA_BASE = [("predict",), ("detlink",), ("est_u", 1), ("em", 0), ("prior", 0), ("ctf", "first_name"), ("rtf", "first_name", 1),
+              ("fm",), ("c2", False), ("cluster", 0), ("rt", False), ("reg", "caller_t1", False, 1), ("reg", "customers", False, 2),
+              ("dropu", "customers", False), ("dropu", "r", False), ("acc_col",), ("acc_tab",), ("m_col",), ("m_pair",),
+              ("unlink",), ("profile",), ("complete",), ("ba_cum",), ("ba_nl", 0), ("multi",)]
+
+
+def alphabet(fixes: dict) -> list[tuple]:
+    """Operations of the exhaustive (operation, cleanup) stage; two more on trees that carry the respective repairs."""
+    return ALPHA_BASE + ([("rtc",)] if fixes["fx715"] else []) + ([("metrics", 0)] if fixes.get("fx717") else [])
+
+
+def meta_counts_problems() -> list[str]:
+    """meta/C18.json states sizes of the X stage in words; they are compared with the code on every run (AUDIT_2 B11)."""
+    import re
+    from pathlib import Path
+    txt = json.loads((Path(__file__).resolve().parent.parent / "meta" / "C18.json").read_text())["level_text"]
+    want = {r"pre-populated with (\d+) user tables": len(USER_TABLES), r"(\d+) views": len(USER_VIEWS),
+            r"(\d+) user-owned copies": len(SLOT_TABLES) + 1, r"alphabet of (\d+) operations": len(ALPHA_BASE)}
+    out = []
+    for pat, n in want.items():
+        m = re.search(pat, txt)
+        if not m or int(m.group(1)) != n:
+            out.append(f"meta says {m.group(0) if m else 'nothing matching ' + pat!r}, the code has {n}")
+    out += [f"meta does not name user table {t}" for t in USER_TABLES + USER_VIEWS if t not in txt]
+    return out
+
+
+def gen_regmulti(rng) -> tuple:
+    """A mixed input list (>= 1 table name, >= 1 data frame, random order) with aliases of one of four kinds:
+       default  Linker([...]) without aliases: __splink__input_table_<i>, overwrite=True.  The user table
+                __splink__input_table_0 exists, so position 0 is a by-name item (a frame there replaces it on the
+                unchanged tree too: Linker's own overwrite=True, outside the theorems' guard, see meta level_note)
+       free     overwrite=False, frame aliases unused names
+       clash    overwrite=False, one frame alias names a user object (also up to letter case): must be refused
+       overwrite  DatabaseAPI.register_multiple_tables(..., overwrite=True), frame aliases never user names
+       The alias of a by-name item is only a label: often the table's own name or the name of another user table."""
+    via = rng.choice(["linker", "api"])
+    mode = rng.choice(["default", "free", "clash"] if via == "linker" else ["free", "clash", "overwrite"])
+    n = rng.randint(2, 3)
+    kinds = ["n", "f"] + [rng.choice("nf") for _ in range(n - 2)]
+    rng.shuffle(kinds)
+    if mode == "default" and kinds[0] == "f":
+        j = kinds.index("n")
+        kinds[0], kinds[j] = "n", "f"
+    items = tuple((k, (INPUT_TABLE if via == "linker" else rng.choice(BYNAME_API)) if k == "n" else rng.randint(1, 5)) for k in kinds)
+    if mode == "default":
+        return ("regmulti", items, None, True, via)
+    fresh = rng.sample(FRESH_ALIASES, len(FRESH_ALIASES))
+    labels = rng.sample(LABEL_ALIASES, len(LABEL_ALIASES))
+    aliases = []
+    for k, x in items:
+        if k == "f":
+            aliases.append(fresh.pop())
+        else:
+            a = x if (rng.random() < 0.5 and x not in aliases) else next(l for l in labels if l not in aliases)
+            aliases.append(a)
+    if mode == "clash":
+        i = rng.choice([j for j, (k, _) in enumerate(items) if k == "f"])
+        aliases[i] = next(c for c in rng.sample(CLASH_ALIASES, len(CLASH_ALIASES)) if c.lower() not in {a.lower() for a in aliases})
+    return ("regmulti", items, tuple(aliases), mode == "overwrite", via)
+
+
 def gen_history(ctx: Ctx, n: int, fixes: dict) -> list[tuple]:
     rng = ctx.rng
     hist = []
     for _ in range(n):
-        k = rng.choices(["c07", "reg", "dropu", "rt", "del", "inv", "regname", "handle", "reg_linker"],
-                        [10, 4, 3, 3, 2, 1, 3, 1, 1])[0]
+        k = rng.choices(["c07", "reg", "dropu", "rt", "del", "inv", "regname", "handle", "reg_linker", "regmulti"],
+                        [10, 4, 3, 3, 2, 1, 3, 1, 1, 3])[0]
         if k == "c07":
             op = C07.gen_history(ctx, 1, fixes)[0]
             if op[0] == "chg":
@@ -279,6 +401,8 @@ def gen_history(ctx: Ctx, n: int, fixes: dict) -> list[tuple]:
             hist.append(("reg", name, False, rng.randint(1, 5)))
         elif k == "reg_linker":
             hist.append(("reg_linker", rng.choice(CASE_VARIANTS + ["people", "customers"])))
+        elif k == "regmulti":
+            hist.append(gen_regmulti(rng))
         elif k == "regname":
             hist.append(("regname", rng.choice(list(SLOT_TABLES))))
         elif k == "handle":
@@ -300,6 +424,7 @@ def run_history(ctx: Ctx, backend: str, hist: list[tuple], fixes: dict, tag: str
     w.rt_settings = C07.rt_settings(1)
     init = coq_cinit(w, fixes)
     before = w.user_state()
+    seen = before
     steps, done, problems = [], [], []
     if cleanup_at_end:
         hist = list(hist) + [("del",)]
@@ -321,17 +446,22 @@ def run_history(ctx: Ctx, backend: str, hist: list[tuple], fixes: dict, tag: str
             problems.append({"why": "raised", "op": op, "error": raised})
             break
         steps.append((term, w.normalised()))
+        # every oracle is evaluated after every operation; a problem does not hide later ones (only a raise ends the history)
+        problems += w.pending
+        w.pending = []
         now = w.user_state()
-        if now != before:
-            changed = {n: (before[n], now[n]) for n in before if before[n] != now[n]}
+        if now != seen:
+            changed = {n: (seen[n], now[n]) for n in seen if seen[n] != now[n]}
             problems.append({"why": "user object changed", "op": op, "changed": changed})
-            break
-        if op[0] in ("del", "inv") and not w.linker._debug_mode:
+            seen = now
+        if op[0] in ("del", "inv"):
             left = w.derived_names()
             if left:
-                problems.append({"why": "tables derived by Splink survive the cleanup call", "op": op, "left": left})
-                break
-    res = {"backend": backend, "history": done, "init": init, "steps": steps, "problems": problems}
+                problems.append({"why": "tables derived by Splink survive the cleanup call", "op": op, "left": left,
+                                 "left_normalised": sorted(X.strip_name(n)[0] for n in left)})
+    final = w.user_state()
+    res = {"backend": backend, "history": done, "init": init, "steps": steps, "problems": problems,
+           "changed_objects": sorted(n for n in before if before[n] != final[n]), "user_names": sorted(w.user_names)}
     w.close()
     return res
 
@@ -389,14 +519,7 @@ def history_stage(ctx: Ctx, fixes: dict):
             hist = gen_history(ctx, ctx.rng.randint(3, maxlen), fixes)
             results.append(run_history(ctx, backend, hist, fixes, f"h{k % 4}"))
     # every single operation and every pair (operation, cleanup) from a small alphabet
-    alpha = [("predict",), ("detlink",), ("est_u", 1), ("em", 0), ("prior", 0), ("ctf", "first_name"), ("rtf", "first_name", 1),
-             ("fm",), ("c2", False), ("cluster", 0), ("rt", False), ("reg", "caller_t1", False, 1), ("reg", "customers", False, 2),
-             ("dropu", "customers", False), ("dropu", "r", False), ("acc_col",), ("acc_tab",), ("m_col",), ("m_pair",),
-             ("unlink",), ("profile",), ("complete",), ("ba_cum",), ("ba_nl", 0), ("multi",)]
-    if fixes["fx715"]:
-        alpha.append(("rtc",))
-    if fixes.get("fx717"):
-        alpha.append(("metrics", 0))
+    alpha = alphabet(fixes)
     for a in alpha:
         for tail in ([("del",)], [("inv",)]) if not ctx.quick else ([("del",)],):
             results.append(run_history(ctx, "duckdb", [a] + list(tail), fixes, "ex", cleanup_at_end=False))
@@ -413,6 +536,27 @@ def history_stage(ctx: Ctx, fixes: dict):
             kind = ctx.rng.choice(["reg", "reg_linker"])
             results.append(run_history(ctx, backend, [("reg", v, False, 3) if kind == "reg" else ("reg_linker", v), ("predict",)],
                                        fixes, "case"))
+    # mixed lists of table names and data frames: every order of (name, frame) x every alias mode, both backends, each followed
+    # by a prediction and the cleanup call; then seeded ones
+    F, N = ("f", 3), ("n", INPUT_TABLE)
+    mixed = [
+        ("regmulti", (N, F), ("census", "customers"), False, "linker"),              # frame alias = user table: refused
+        ("regmulti", (N, F), ("census", "CUSTOMER_VIEW"), False, "api"),             # ... a view, other letter case
+        ("regmulti", (N, F), None, True, "linker"),                                  # user table __splink__input_table_0 at the by-name position
+        ("regmulti", (N, F), (INPUT_TABLE, "new_records"), False, "linker"),         # by-name item labelled with its own name
+        ("regmulti", (("n", "customers"), F), ("customers", "scratch_a"), True, "api"),   # overwrite=True must spare the by-name table
+        ("regmulti", (("n", "people"), F, ("n", "customers")), ("r", "scratch_b", "people"), True, "api"),
+        ("regmulti", (F, N), ("new_records", "customers"), False, "linker"),         # frame first
+        ("regmulti", (F, N), ("People", INPUT_TABLE), False, "api"),                 # frame first, clash up to letter case
+        ("regmulti", (N, F, F), ("__splink__input_table_0", "caller_t1", "caller_t2"), False, "linker"),
+    ]
+    for m in mixed:
+        for backend in ("duckdb", "sqlite"):
+            results.append(run_history(ctx, backend, [m, ("predict",)], fixes, "mixed"))
+    for _ in range(6 if ctx.quick else 40):
+        backend = ctx.rng.choice(["duckdb", "sqlite"])
+        results.append(run_history(ctx, backend, [gen_regmulti(ctx.rng), ctx.rng.choice([("predict",), ("fm",), ("reg", "caller_t1", False, 2)]),
+                                                  gen_regmulti(ctx.rng)], fixes, "mixed"))
     ctx.log(f"catalog histories run: {len(results)}")
     for r in results:
         hist = r["history"]
@@ -422,6 +566,10 @@ def history_stage(ctx: Ctx, fixes: dict):
         ctx.hist("backend", r["backend"])
         for o in hist:
             ctx.hist("op", o[0])
+            if o[0] == "regmulti":
+                ks = "".join(k for k, _ in o[1])
+                ctx.hist("regmulti_shape", ("name-before-frame" if ks.find("n") < ks.rfind("f") else "frames-first")
+                         + ("/default-aliases" if o[2] is None else "/overwrite" if o[3] else "/aliases"))
     # oracle
     reported: dict[str, int] = {}
     for r in results:
@@ -430,8 +578,11 @@ def history_stage(ctx: Ctx, fixes: dict):
             if reported[pb["why"]] > 2:
                 continue                      # same failure class: counted in evidence, two shrunk replays are enough
             small = shrink(ctx, r["backend"], r["history"], fixes, lambda q: any(x["why"] == pb["why"] for x in q["problems"]))
+            rs = run_history(ctx, r["backend"], small, fixes, "shrunk", cleanup_at_end=False) if small != r["history"] else r
+            shown = next((x for x in rs["problems"] if x["why"] == pb["why"]), pb)     # the problem as it shows on the shrunk history
             ctx.violation(f"catalog oracle: {pb['why']}",
-                          {"case": small, "original_history": r["history"], "backend": r["backend"], "implementation": pb,
+                          {"case": small, "original_history": r["history"], "backend": r["backend"], "implementation": shown,
+                           "all_problems_of_the_original_history": r["problems"],
                            "specification": "user tables and views keep schema and contents; register/drop refuse; cleanup removes "
                                             "every table Splink derived and nothing else"},
                           features(small, pb))
@@ -497,52 +648,81 @@ def witness_stage(ctx: Ctx, fixes: dict):
                            "specification": "cleanup removes every table Splink derived"},
                           {"scenario": "graph_metrics_bridges_leak"})
         ctx.expect_known("KF-C18-graph-metrics-bridges-leak", leak17, "the bridges table is tracked")
-    # 7.11 debug mode
+    # 7.11 debug mode.  The two known findings are recognised by WHAT went wrong, not by the scenario: the set of user
+    # objects that changed and the set of names that survive the cleanup call are put into the features and compared with
+    # the lists the model predicts for this very database (Catalog.v, evaluated in Coq); anything else that goes wrong in
+    # the same history (another user object damaged, another kind of table left, a raise) is reported separately.
+    LEAK, CHANGED = "tables derived by Splink survive the cleanup call", "user object changed"
     for backend in ("duckdb", "sqlite"):
-        r = run_history(ctx, backend, [("debug", True), ("predict",), ("del",)], fixes, "w711", cleanup_at_end=False)
+        hist = [("debug", True), ("predict",), ("del",)]
+        r = run_history(ctx, backend, hist, fixes, "w711", cleanup_at_end=False)
         kinds = [p["why"] for p in r["problems"]]
         ctx.cov[f"witness_debug_{backend}"] = kinds
-        clobber = any(k == "user object changed" for k in kinds)
-        if clobber:
+        changed = sorted({n for p in r["problems"] if p["why"] == CHANGED for n in p["changed"]} | set(r["changed_objects"]))
+        left = sorted({n for p in r["problems"] if p["why"] == LEAK for n in p["left_normalised"]})
+        others = [p for p in r["problems"] if p["why"] not in (LEAK, CHANGED)]
+        model_changed, model_left, ok, flat = model_debug_prediction(ctx, r["init"])
+        ctx.cov[f"witness_debug_{backend}_lists"] = {"changed": changed, "model_changed": model_changed, "left": left, "model_left": model_left}
+        if changed:
             ctx.violation("debug mode: CTE names without the __splink__ prefix (blocked_with_cols, ...) become physical tables; a user "
-                          "table of that name is dropped and replaced",
-                          {"case": r["history"], "backend": backend, "implementation": r["problems"],
-                           "specification": "user tables keep schema and contents"},
-                          {"scenario": "debug_mode_clobber"})
-        # leak: run again without the colliding user table check stopping the history
-        w = CWorld(backend, fresh_path(backend, "w711b"))
-        w.linker._debug_mode = True
-        with contextlib.redirect_stdout(io.StringIO()):
-            w.linker.inference.predict()
-            w.linker.table_management.delete_tables_created_by_splink_from_db()
-        left = [n for n in w.derived_names()]
-        w.close()
+                          "table of that name is dropped and replaced"
+                          + ("" if changed == model_changed else f" - BUT the user objects that changed {changed} are not the ones the model predicts {model_changed}"),
+                          {"case": hist, "backend": backend, "implementation": [p for p in r["problems"] if p["why"] == CHANGED],
+                           "specification": "user tables keep schema and contents", "model_predicts_changed": model_changed},
+                          {"scenario": "debug_mode_clobber", "changed": changed, "agrees_with_model": ok and changed == model_changed})
         if left:
-            ctx.violation("debug mode: tables derived by Splink survive delete_tables_created_by_splink_from_db",
-                          {"case": [("debug", True), ("predict",), ("del",)], "backend": backend, "implementation": {"left": left},
-                           "specification": "cleanup removes every table Splink derived"},
-                          {"scenario": "debug_mode_leak"})
+            ctx.violation("debug mode: tables derived by Splink survive delete_tables_created_by_splink_from_db"
+                          + ("" if left == model_left else f" - BUT the names left {left} are not the ones the model predicts {model_left}"),
+                          {"case": hist, "backend": backend, "implementation": {"left": left},
+                           "specification": "cleanup removes every table Splink derived", "model_predicts_left": model_left},
+                          {"scenario": "debug_mode_leak", "leaked": left, "agrees_with_model": ok and left == model_left})
+        for pb in others:
+            ctx.violation(f"debug-mode witness: {pb['why']}", {"case": hist, "backend": backend, "implementation": pb,
+                                                               "specification": "only the two known debug-mode defects"},
+                          features(hist, pb))
         ctx.expect_known("KF-C18-debug-mode-leak", bool(left), "debug mode no longer leaks")
-        ctx.expect_known("KF-C18-debug-mode-clobber", clobber, "debug mode no longer clobbers")
-        # model: same verdicts
-        term = (HEADER + "\nEval vm_compute in (let s0 := " + coq_cinit_static(fixes) + " in "
-                "let s := crun K keqb hash s0 [COp (SetDebug true); COp Predict; COp DeleteTables] in "
-                '(List.length (splink_tables K s), match aget K keqb (st_db K s) (PL K (LPlain "blocked_with_cols")) with '
-                "Some e => origin_eqb (e_origin e) Splink | None => false end)).\n")
-        ok, out = ctx.coqc_text("C18_w711", term)
-        flat = " ".join(out.split())
-        import re
-        m = re.search(r"=\s*\((\d+), (true|false)\)", flat)
-        model_left = int(m.group(1)) if m else -1
-        model_clobber = (m.group(2) == "true") if m else None
-        ctx.obligation(f"witness 7.11 ({backend}): model predicts the leak ({model_left} tables) and the clobbered user table",
-                       ok and (model_left > 0) == bool(left) and model_clobber == clobber, flat[-300:])
+        ctx.expect_known("KF-C18-debug-mode-clobber", bool(changed), "debug mode no longer clobbers")
+        ctx.obligation(f"witness 7.11 ({backend}): the user objects that change and the names that survive cleanup are exactly the "
+                       f"model's ({len(model_changed)} changed, {len(model_left)} left)",
+                       ok and changed == model_changed and left == model_left, flat[-300:])
 
 
-def coq_cinit_static(fixes: dict) -> str:
-    others = coq_list([f"({coq_string(n)}, 0)" for n in sorted(USER_TABLES + USER_VIEWS)], "(string * nat)")
-    fx = (f"{{| fx77 := {coq_bool(fixes['fx77'])}; fx716 := {coq_bool(fixes['fx716'])}; fx715 := {coq_bool(fixes['fx715'])}; fx718 := {coq_bool(fixes.get('fx718', False))}; fxba := {coq_bool(fixes.get('fxba', False))}; fxco := {coq_bool(fixes.get('fxco', False))} |}}")
-    return f'(cinit K ["inp"] 0 {others} ["first_name"; "surname"] 0 5 6 {fx})'
+def model_debug_prediction(ctx: Ctx, init: str):
+    """Model/Catalog.v on [SetDebug true; Predict; DeleteTables] from the witness database: (names of initial entries that
+    are gone or no longer of their origin, names of Splink-origin entries that did not exist initially)."""
+    import re
+    txt = (HEADER + "\nDefinition s0 := " + init + ".\n"
+           "Definition s1 := crun K keqb hash s0 [COp (SetDebug true); COp Predict; COp DeleteTables].\n"
+           "Eval vm_compute in (map (fun kv => pbase K (fst kv)) (filter (fun kv => match aget K keqb (st_db K s1) (fst kv) with "
+           "Some e => negb (origin_eqb (e_origin e) (e_origin (snd kv))) | None => true end) (st_db K s0))).\n"
+           "Eval vm_compute in (map (fun kv => pbase K (fst kv)) (filter (fun kv => origin_eqb (e_origin (snd kv)) Splink && "
+           "negb (amem K keqb (st_db K s0) (fst kv))) (st_db K s1))).\n")
+    ok, out = ctx.coqc_text("C18_w711", txt)
+    flat = " ".join(out.split())
+    parts = re.findall(r"=\s*(\[.*?\])\s*:\s*list string", flat)
+    if not ok or len(parts) != 2:
+        return [], [], False, flat
+    lists = [sorted(re.findall(r'"([^"]*)"', p)) for p in parts]
+    return lists[0], lists[1], True, flat
+
+
+def translator_stage(ctx: Ctx):
+    """T: the statement structure of register_multiple_tables / Linker._register_input_tables is the one the model follows."""
+    from translators import c18_register as T18
+    for name, fn, want in (("DatabaseAPI.register_multiple_tables: both loops zip the FULL item list with the FULL alias list and "
+                            "decide by-name / frame per pair (Catalog.register_multiple: combine items aliases)", T18.shape, T18.MODEL_SHAPE),
+                           ("Linker._register_input_tables: default aliases __splink__input_table_<i> with overwrite=True, given "
+                            "aliases with overwrite=False (harness regmulti_aliases / CRegisterMultiple)", T18.linker_defaults, T18.LINKER_MODEL)):
+        try:
+            got, err = fn(), ""
+        except T18.Untranslatable as e:
+            got, err = None, str(e)
+        ok = got == want
+        ctx.obligation("T: " + name, ok, err or ("" if ok else f"translated {got}, model {want}"))
+        ctx.cov.setdefault("translated_shapes", {})[fn.__name__] = got if got is not None else err
+        if not ok:
+            ctx.violation("translator: the source no longer has the shape the model of register_multiple_tables follows",
+                          {"broken": "T: " + name, "detail": err or got}, found_input=False)
 
 
 def run(ctx: Ctx):
@@ -550,18 +730,28 @@ def run(ctx: Ctx):
         "histories: seeded sequences (3..12 quick, ..25 thorough) over the C07 operations plus register_table (new name / existing "
         "user table / user view / Splink look-alike name / names differing from a user object only in letter case, overwrite=False; also through Linker(dataframe, input_table_aliases=[name])), the register_* entry points called with the NAME of a user-owned table (concat_with_tf, predict, tf lookup, labels, register_table) followed by every operation that drops cache entries, drop through Splink of user tables (force=False), realtime "
         "compare_records (cached / uncached), delete_tables_created_by_splink_from_db and invalidate_cache at random points, each "
-        "history closed by a cleanup call (second wave: plus evaluation, m-training, unlinkables, profile/completeness, blocking analysis, multi-threshold clustering and graph metrics); persistent DuckDB and SQLite database files pre-populated with 6 user tables (names r, "
-        "blocked_with_cols, __splink__df_concat, __splink__df_predict, a hashed look-alike, customers) and 2 views; plus every "
-        "(operation, cleanup) pair over a 15-letter alphabet. Non-trivial: >= 3 kinds of operation and a cleanup call.")
+        "history closed by a cleanup call (second wave: plus evaluation, m-training, unlinkables, profile/completeness, blocking analysis, multi-threshold clustering and graph metrics); persistent DuckDB and SQLite database files pre-populated with "
+        f"{len(USER_TABLES)} user tables ({', '.join(USER_TABLES)}), {len(USER_VIEWS)} views ({', '.join(USER_VIEWS)}) and "
+        f"{len(SLOT_TABLES) + 1} user-owned copies of Splink-shaped tables ({', '.join(list(SLOT_TABLES.values()) + [LABELS_TABLE])}); plus every "
+        f"(operation, cleanup) pair over an alphabet of {len(ALPHA_BASE)} operations (+ rtc / metrics on repaired trees). "
+        "register_multiple_tables / Linker([...]) over MIXED lists of table names and data frames (every order; default aliases "
+        "__splink__input_table_<i> with overwrite=True, free aliases, a frame alias that names a user object - also up to letter "
+        "case -, DatabaseAPI overwrite=True; by-name items labelled with their own name / another user table's name), refusal "
+        "expected iff a FRAME's alias is in an independent catalog listing. "
+        "Non-trivial: >= 3 kinds of operation and a cleanup call.")
+    mc = meta_counts_problems()
+    ctx.obligation("meta/C18.json: the stated sizes of the X stage equal the code's", not mc, "; ".join(mc))
     ctx.trusted += [
         "Model/Cache.v assumptions (hash injectivity, provenance model)",
         "harness X: names are normalised by stripping the 9-hex hash / 8-char uid; user objects are identified by exact name",
         "modelled: table contents as provenance terms; schema and rows of user objects are checked by the oracle only",
         "views are not distinguished from tables in the model (the catalog listing and the oracle cover both)",
+        "translator c18_register (shape of register_multiple_tables); Linker.__init__'s validation after registration is not modelled",
     ]
     ok = ctx.proof_stage("Properties/C18.v")
     if not ok:
         ctx.violation("theorems of Properties/C18.v no longer check", {"broken": "Properties/C18.v"}, found_input=False)
+    translator_stage(ctx)
     fixes = C07.probe_fixes(ctx)
     fixes["fx715"] = probe_fx715()
     ctx.cov["tree_variant"] = fixes
@@ -569,7 +759,7 @@ def run(ctx: Ctx):
     ctx.cov["translated_sources"] = {p: git_blob(REPO / p) for p in [
         "splink/internals/database_api.py", "splink/internals/splink_dataframe.py", "splink/internals/duckdb/dataframe.py",
         "splink/internals/sqlite/dataframe.py", "splink/internals/duckdb/database_api.py", "splink/internals/sqlite/database_api.py",
-        "splink/internals/linker_components/table_management.py", "splink/internals/realtime.py"]}
+        "splink/internals/linker_components/table_management.py", "splink/internals/realtime.py", "splink/internals/linker.py"]}
     try:
         if ctx.replay:
             rp = json.loads(open(ctx.replay).read())
